@@ -48,7 +48,7 @@ func (o *jobOut) violation(p *pending) {
 
 // runJobs executes jobs on all cores; violations are merged in JOB ORDER (not completion order)
 // so that the representative kept per class is always the same, simplest-first one.
-func runJobs(r *vlib.Report, jobs []job) {
+func runJobs(r *vlib.Report, jobs []job, until time.Time) {
 	outs := make([]*jobOut, len(jobs))
 	idx := make(chan int)
 	var wg sync.WaitGroup
@@ -59,7 +59,7 @@ func runJobs(r *vlib.Report, jobs []job) {
 		go func() {
 			defer wg.Done()
 			for i := range idx {
-				if r.Cfg().Expired() {
+				if time.Now().After(until) {
 					mu.Lock()
 					skipped++
 					mu.Unlock()
@@ -93,7 +93,7 @@ func runJobs(r *vlib.Report, jobs []job) {
 		}
 	}
 	if skipped > 0 {
-		r.NotExhaustive(fmt.Sprintf("time box reached: %d of %d jobs not run", skipped, len(jobs)))
+		r.NotExhaustive(fmt.Sprintf("time box of family %q reached: %d of %d jobs not run (jobs run in declaration order on %d workers)", strings.Fields(jobs[0].name)[0], skipped, len(jobs), runtime.NumCPU()))
 	}
 }
 
@@ -149,9 +149,12 @@ func jwtJobs(thorough bool) []job {
 	for _, b := range bases {
 		switch {
 		case thorough:
-			lvl := 1
-			if b.Custom == 2 && timesIn(b.Times, focus) && b.Cfg.Prev != secretS {
+			lvl := 0
+			switch {
+			case b.Custom == 2 && timesIn(b.Times, focus) && b.Cfg.Prev != secretS:
 				lvl = 2
+			case b.Custom == 2 || timesIn(b.Times, focus):
+				lvl = 1
 			}
 			jobs = append(jobs, jwtMutJob(b, lvl, "jwt-mut"))
 		case b.Cfg.Prev != secretS && b.Custom == 2 && timesIn(b.Times, focus):
@@ -193,7 +196,7 @@ func jwtJobs(thorough bool) []job {
 	return jobs
 }
 
-func runSeqFamily(r *vlib.Report, thorough bool) {
+func runSeqFamily(r *vlib.Report, thorough bool, until time.Time) {
 	type search struct {
 		level, alphabet string
 		depth           int
@@ -212,7 +215,7 @@ func runSeqFamily(r *vlib.Report, thorough bool) {
 	if thorough {
 		searches = []search{
 			{"handler", "SPXE", 8, rot, true},
-			{"handler", "SPXYEFNWM", 6, rot, true},
+			{"handler", "SPXYEFNWM", 5, rot, true},
 			{"parser", "SPXEJ", 10, rot, false},
 			{"parser", "SPXYEFNWMJ", 8, rot, false},
 			{"handler", "SPXE", 6, jwtCfg{Secret: secretS}, true},
@@ -244,7 +247,7 @@ func runSeqFamily(r *vlib.Report, thorough bool) {
 		go func(p *part) {
 			defer wg.Done()
 			defer func() { <-sem }()
-			p.res = searchSeq(r, p.s.level, p.s.cfg, p.s.alphabet, p.s.depth, p.first, &p.pend)
+			p.res = searchSeq(r, p.s.level, p.s.cfg, p.s.alphabet, p.s.depth, p.first, until, &p.pend)
 		}(p)
 	}
 	wg.Wait()
@@ -279,8 +282,11 @@ func csJobs(thorough bool) []job {
 		b := b
 		jobs = append(jobs, job{name: "cs", run: func(o *jobOut) {
 			memo := &rsaMemo{}
-			full := thorough || (b.TolMs == 1000 && !b.XUri)
-			csMutations(b, thorough, full, func(m csMut) {
+			// deep: full signature alphabet and every ciphertext bit; full: every field mutated;
+			// otherwise only the mutations whose outcome depends on tolerance / X-Request-Uri
+			deep := thorough && b.TolMs == 1000 && !b.XUri
+			full := b.TolMs == 1000 && (thorough || !b.XUri) || thorough && !b.XUri
+			csMutations(b, deep, full, func(m csMut) {
 				c := csCase{Base: b, Mut: m}
 				p, exp, obs := checkCS(c, memo)
 				o.evals++
@@ -418,13 +424,24 @@ func main() {
 		f()
 		phase[name] = fmt.Sprintf("%.1fs", time.Since(t0).Seconds())
 	}
+	// soft time box: 75 s quick / 13 min thorough, split over the families so that a slow machine
+	// truncates every family's tail instead of dropping the later families altogether
+	if cfg.BudgetS == 0 {
+		cfg.BudgetS = 75
+		if thorough {
+			cfg.BudgetS = 780
+		}
+	}
+	at := func(frac float64) time.Time {
+		return cfg.Start.Add(time.Duration(frac * float64(cfg.BudgetS) * float64(time.Second)))
+	}
 	jj := jwtJobs(thorough)
-	timed("jwt", func() { runJobs(r, jj) })
-	timed("seq", func() { runSeqFamily(r, thorough) })
+	timed("jwt", func() { runJobs(r, jj, at(0.45)) })
+	timed("seq", func() { runSeqFamily(r, thorough, at(0.55)) })
 	cj := csJobs(thorough)
-	timed("cs", func() { runJobs(r, cj) })
+	timed("cs", func() { runJobs(r, cj, at(0.95)) })
 	kj := cryptJobs(thorough)
-	timed("crypt", func() { runJobs(r, kj) })
+	timed("crypt", func() { runJobs(r, kj, at(1.0)) })
 	fmt.Println("phase wall times:", phase)
 
 	r.Scenario("families", map[string]any{
